@@ -25,6 +25,12 @@ REPO = Path(os.environ.get("IBLNPX_REPO", "/repo"))
 EVID = Path(os.environ.get("IBLNPX_EVID", str(VERIF / "evidence")))   # redirected when a seeded change is being tested
 REPLAYS = EVID / "replays"
 KNOWN = VERIF / "known_findings.json"
+# scratch for generated case files / extracted models: outside the -Q root, so that coqdep
+# (which scans the whole root) never meets a directory that is being removed
+GEN = VERIF / "work" / "gen"
+BUILD = VERIF / "work" / "build"
+GEN.mkdir(parents=True, exist_ok=True)
+BUILD.mkdir(parents=True, exist_ok=True)
 NCPU = max(2, (os.cpu_count() or 4))
 
 FORBIDDEN = re.compile(
@@ -131,7 +137,7 @@ def print_assumptions(prop, module="Props", names=None, timeout=600):
     """Returns {theorem: [axiom names]} ([] = closed under the global context),
     or raises RuntimeError with the coqc output."""
     names = names or theorem_names(COQ / prop / (module + ".v"))
-    gen = Path(tempfile.mkdtemp(prefix="assum_%s_" % prop, dir=COQ / "_gen"))
+    gen = Path(tempfile.mkdtemp(prefix="assum_%s_" % prop, dir=GEN))
     try:
         f = gen / "A.v"
         lines = ["From IBL.%s Require Import %s." % (prop, module)]
@@ -162,8 +168,8 @@ def print_assumptions(prop, module="Props", names=None, timeout=600):
 
 def coq_run_file(prop, text, timeout=900, stack_unlimited=True):
     """Compile one generated .v file that prints with idtac / Eval; returns stdout."""
-    (COQ / "_gen").mkdir(exist_ok=True)
-    gen = Path(tempfile.mkdtemp(prefix="run_%s_" % prop, dir=COQ / "_gen"))
+    GEN.mkdir(parents=True, exist_ok=True)
+    gen = Path(tempfile.mkdtemp(prefix="run_%s_" % prop, dir=GEN))
     try:
         f = gen / "Cases.v"
         f.write_text(text)
@@ -190,7 +196,7 @@ def parse_coq_zlist(out):
 def coq_mismatches(prop, header, case_terms, shard=300, fn="mismatches", timeout=900):
     """case_terms: list of Coq terms of the property's `case` record type, each
     carrying its own id.  Returns the list of ids the model disagrees on."""
-    (COQ / "_gen").mkdir(exist_ok=True)
+    GEN.mkdir(parents=True, exist_ok=True)
     shards = [case_terms[i:i + shard] for i in range(0, len(case_terms), shard)]
 
     def one(terms):
@@ -217,12 +223,12 @@ Extraction "model_run.ml" %(fn)s.
 class Extracted:
     """OCaml extraction of coq/<prop>/<module>.v's `run : list Z -> list Z`
     (ExtrOcamlBasic only; Z kept as the extracted inductive), driven by
-    harness/driver.ml.  Built on demand into coq/_build/<prop>/ and rebuilt
+    harness/driver.ml.  Built on demand into work/build/<prop>/ and rebuilt
     whenever the compiled model is newer than the binary."""
 
     def __init__(self, prop, module="Run", fn="run"):
         self.prop, self.module, self.fn = prop, module, fn
-        self.dir = COQ / "_build" / prop
+        self.dir = BUILD / prop
         self.exe = self.dir / "run.exe"
         self.build()
 
@@ -390,7 +396,7 @@ def proof_obligations(ctx, subdirs=None, whitelist=(), modules=("Props",), make_
     """Build the property's theorem file(s) and check their axioms."""
     prop = ctx.prop
     subdirs = subdirs or ["lib", prop]
-    (COQ / "_gen").mkdir(exist_ok=True)
+    GEN.mkdir(parents=True, exist_ok=True)
     targets = make_targets or (["%s/%s.vo" % (prop, m) for m in modules] + ["%s/Run.vo" % prop])
     targets = [t for t in targets if (COQ / t[:-1]).exists()]   # .vo -> .v exists
     hits = scan_forbidden(subdirs)
